@@ -391,14 +391,19 @@ class HttpParser(abc.ABC, Generic[_MsgT]):
 
                     # line found
                     line = data[start_pos:pos]
+                    line_len = len(line)
                     if SEP == b"\n":  # For lax response parsing
+                        # Only one CR is part of the line ending (as counted
+                        # while the line is incomplete), further ones are
+                        # dropped but count towards the length of the line.
+                        line_len -= line.endswith(b"\r")
                         line = line.rstrip(b"\r")
                     elif not self._lines and b"\n" in line:
                         # A bare LF is refused while the line is incomplete
                         # (below), so refuse it in a complete start line too
                         # (parse_headers refuses it in every other line).
                         raise BadStatusLine(line.decode("utf-8", "surrogateescape"))
-                    if len(line) > max_line_length:
+                    if line_len > max_line_length:
                         raise LineTooLong(line[:100] + b"...", max_line_length)
 
                     self._lines.append(line)
@@ -1201,10 +1206,13 @@ class HttpPayloadParser:
 
                     line = chunk[:pos]
                     chunk = chunk[pos + len(SEP) :]
+                    line_len = len(line)
                     if SEP == b"\n":  # For lax response parsing
+                        # One CR is part of the line ending, as in a partial line.
+                        line_len -= line.endswith(b"\r")
                         line = line.rstrip(b"\r")
 
-                    if len(line) > self._max_field_size:
+                    if line_len > self._max_field_size:
                         raise LineTooLong(line[:100] + b"...", self._max_field_size)
 
                     self._trailer_lines.append(line)
